@@ -25,6 +25,10 @@ def parse(trace):
             cur = {"i": i, "n": e[1], "kind": e[2], "key": e[3], "t": e[4],
                    "pos": e[5] if len(e) > 5 else None, "reqs": []}
             cbs.append(cur)
+        elif e[0] == "ext":
+            # requests issued from outside any callback, between two steps, at the reported time e[2]
+            cur = {"i": i, "n": e[1], "kind": "external", "key": "", "t": e[2], "pos": None, "reqs": []}
+            cbs.append(cur)
         elif e[0] == "req":
             if cur is None:
                 # issued outside any callback: through the provider between build() and the first step
